@@ -21,7 +21,7 @@ func init() {
 		NotCovered:  "Latency of cancellation; goroutines started by host code; the exec module's child processes (CommandContext).",
 		Assumptions: []string{"Go channel/select semantics; context.Context contract", "the watcher's own receive from ctx.Done() is the one accepted bare receive"},
 		Rules: []*core.Rule{
-			{ID: "C06-R1", Title: "halt flag polled on every dispatch iteration", Floor: 2, Run: c06r1},
+			{ID: "C06-R1", Title: "halt flag polled on every dispatch iteration", Floor: 1, Run: c06r1},
 			{ID: "C06-R2", Title: "every VM that runs script code is armed for the context", Floor: 3, Run: c06r2},
 			{ID: "C06-R3", Title: "blocking primitives select on ctx.Done()", Floor: 6, Run: c06r3},
 			{ID: "C06-R4", Title: "watcher is armed per run and scoped to it", Floor: 3, Run: func(c *core.Ctx) { watcherRules(c, "C06") }},
@@ -30,20 +30,20 @@ func init() {
 			{ID: "C06-R7", Title: "the VM passes on only contexts derived from the one it was given", Floor: 5, Run: ctxArgsDeriveFromParam},
 			{ID: "C06-R8", Title: "arm/disarm pairing on every exit (shared with C07-R2)", Floor: 2, Run: c07r2},
 			{ID: "C06-R9", Title: "child processes are killed on cancellation (a replaced Cmd.Cancel is bounded by WaitDelay)", Floor: 1, Run: cancelNeedsWaitDelay},
-			{ID: "C06-R10", Title: "clones are armed for the context before they are used", Floor: 2, Run: clonesArmedBeforeUse},
+			{ID: "C06-R10", Title: "clones are armed for the context before they are used", Floor: 1, Run: clonesArmedBeforeUse},
 			{ID: "C06-R11", Title: "the halt flag is cleared only by the arming function", Floor: 1, Run: haltClearedOnlyWhenArming},
 			{ID: "C06-R12", Title: "a context that is over already is refused before anything runs", Floor: 1, Run: finishedContextIsRefused},
 			{ID: "C06-R13", Title: "an error is wrapped as it is, not re-rendered through its text (shared with C01)", Floor: 1, Run: messagesAreNotFormats},
 			{ID: "C06-R14", Title: "contexts made from nothing are an explicit table", Floor: 6, Run: detachedContextsAreEnumerated},
 			{ID: "C06-R15", Title: "http servers follow the evaluation (request contexts, lifetime)", Floor: 2, Run: httpServersFollowTheEvaluation},
-			{ID: "C06-R16", Title: "evaluations end with the context's error", Floor: 2, Run: evaluationsEndWithTheContextError},
+			{ID: "C06-R16", Title: "evaluations end with the context's error", Floor: 1, Run: evaluationsEndWithTheContextError},
 			{ID: "C06-R17", Title: "threads are started by the VM", Floor: 1, Run: threadsAreStartedByTheVM},
 			{ID: "C06-R18", Title: "derived contexts come from the context given", Floor: 1, Run: derivedContextsComeFromTheParameter},
 			{ID: "C06-R19", Title: "a failed callback is not called again by a sort", Floor: 1, Run: failedCallbacksAreNotCalledAgain},
 			{ID: "C06-R20", Title: "context errors keep their identity", Floor: 5, Run: contextErrorsKeepTheirIdentity},
 			{ID: "C06-R21", Title: "the run counter only counts", Floor: 1, Run: theRunCounterOnlyCounts},
 			{ID: "C06-R22", Title: "a refused invocation writes nothing to the VM", Floor: 8, Run: refusedInvocationsWriteNothing},
-			{ID: "C06-R23", Title: "evaluations that fail ask the context too", Floor: 2, Run: evaluationsThatFailAskTheContextToo},
+			{ID: "C06-R23", Title: "evaluations that fail ask the context too", Floor: 1, Run: evaluationsThatFailAskTheContextToo},
 			{ID: "C06-R24", Title: "iterators that are not bounded by data poll the context", Floor: 1, Run: iteratorsThatAreNotBoundedByDataPollTheContext},
 			{ID: "C06-R25", Title: "what ends a blocked operation waits for no lock that the operation holds", Floor: 1, Run: whatEndsABlockedOperationWaitsForNoLockItHolds},
 		},
